@@ -317,6 +317,11 @@ def run(ctx):
     eng.so_path("plain")
     done = 0
     for job, r in pool.pmap_split(_work, len(_CASES), 150, timeout=300):
+        if isinstance(r, pool.Crash) and r.kind == "skipped":
+            ctx.exhaustive = False
+            if "re-run-of-failed-chunks-capped" not in ctx.caps:
+                ctx.caps.append("re-run-of-failed-chunks-capped")
+            continue
         if isinstance(r, pool.Crash):
             c = _CASES[job[0]]
             ctx.violation("C09:%s:%s:engine-%s%s" % (c["sub"], c["policy"], r.kind, ":empty-request-list" if not req_seconds(c["t_sample"]) else ""),
